@@ -4,3 +4,4 @@ from . import c_packet     # noqa
 from . import c_payload    # noqa
 from . import c_base_server  # noqa
 from . import c_socket  # noqa
+from . import c_server  # noqa
